@@ -239,6 +239,30 @@ func c17History(c *ctx, t typeSpec, ops []setOp, how string) {
 			key, detail = "new-panics", fmt.Sprint(pv)
 		}
 	}
+	// two wrappers over one struct read and write the same fields, the ID included
+	if key == "" && tagSafeSpec(t) {
+		p, pv := guard(func() {
+			v := reflect.New(t.structType()).Interface()
+			w1, w2 := jsonapi.Wrap(v), jsonapi.Wrap(v)
+			for i, o := range ops {
+				a, b := w1, w2
+				if i%2 == 1 {
+					a, b = w2, w1
+				}
+				a.Set(o.key, o.val)
+				if !sameValue(b.Get(o.key), a.Get(o.key)) || a.GetID() != b.GetID() || a.Get("id") != b.Get("id") {
+					key, detail = "wrappers-of-one-struct-disagree", fmt.Sprintf("after Set(%q) through one wrapper the other reads %s (id %q vs %q)", o.key, descValue(b.Get(o.key)), a.GetID(), b.GetID())
+				}
+			}
+			w1.Set("id", "set-through-w1")
+			if w2.Get("id") != "set-through-w1" || w2.GetID() != "set-through-w1" || !jsonapi.EqualStrict(w1, w2) {
+				key, detail = "wrappers-of-one-struct-disagree", fmt.Sprintf("id set through one wrapper, the other reads %q", w2.GetID())
+			}
+		})
+		if p && key == "" {
+			key, detail = "wrap-panics", fmt.Sprint(pv)
+		}
+	}
 	nnil := 0
 	for _, o := range ops {
 		if o.val == nil {
@@ -294,6 +318,26 @@ func c17Retype(c *ctx, t1 typeSpec, ops1 []setOp, t2 typeSpec, ops2 []setOp) {
 		sr.SetType(&ty1)
 		d4 := dumpRes(sr, fields)
 		obs = oL([]string{d1, st, d2, d3, d4})
+		// back under the first type: what the second type did not have was dropped on the way
+		fresh1 := &jsonapi.SoftResource{Type: &ty1}
+		for _, f := range t1.fields {
+			if t2.field(f.name) == nil && !sameValue(sr.Get(f.name), fresh1.Get(f.name)) && key == "" {
+				key, detail = "unset-field-not-zero-after-settype", fmt.Sprintf("%s reads %s after the type was replaced and restored, a fresh resource %s", f.name, descValue(sr.Get(f.name)), descValue(fresh1.Get(f.name)))
+			}
+		}
+		// the same without any call between the two SetType
+		tyA, tyB := t1.softType(), t2.softType()
+		quiet := &jsonapi.SoftResource{Type: &tyA}
+		for _, o := range ops1 {
+			quiet.Set(o.key, o.val)
+		}
+		quiet.SetType(&tyB)
+		quiet.SetType(&tyA)
+		for _, f := range t1.fields {
+			if t2.field(f.name) == nil && !sameValue(quiet.Get(f.name), fresh1.Get(f.name)) && key == "" {
+				key, detail = "unset-field-not-zero-after-settype", fmt.Sprintf("%s reads %s after SetType, SetType back (nothing read in between), a fresh resource %s", f.name, descValue(quiet.Get(f.name)), descValue(fresh1.Get(f.name)))
+			}
+		}
 	})
 	if p {
 		obs = oPanic()
